@@ -3,6 +3,7 @@ import Ptn.C03.Tree
 import Ptn.C03.Value
 import Ptn.C03.CentreNorm
 import Ptn.C03.Whole
+import Ptn.C03.Move
 /-! Property theorems for C03.  `Core.lean`: gauge machine for arbitrary distance tables + the
 Mathlib instances.  `Tree.lean`: `canon_gauge_tree` — for every well-formed tree and every centre
 the hypotheses of `canon_gauge` hold for the distance table of the C17 model, so every non-centre
@@ -10,7 +11,9 @@ node ends recorded as pointing to the first hop of its path to the centre.  `Val
 theorems (state unchanged by every run of `canonOps` / `moveOps` given the per-call QR contracts; norm from
 the centre tensor alone).  `Iso.lean` / `CanonTree.lean` / `CentreNorm.lean`: the gauge record MEANS the index-form
 isometry (`run_isometric`, `canonical_form_isometric_tree`), a tree-shaped network of isometries toward the parents is
-canonical (`tree_canon`, `centre_canon_of_tree`, `centre_norm_of_tree`), and `canonical_form_centre_norm`.  This file
+canonical (`tree_canon`, `centre_canon_of_tree`, `centre_norm_of_tree`), and `canonical_form_centre_norm`.
+`Whole.lean`: the norm network of the whole network.  `Move.lean`: centre moves keep canonical form
+(`move_centre_isometric_tree`, `move_centre_norm_whole`).  This file
 only adds the non-vacuity examples of the value-level theorems. -/
 namespace Ptn.C03
 
@@ -233,5 +236,107 @@ example :
     have e2 : isoNet'.legs 0 = isoNet.next :: (isoNet.legs 0).erase 1 := by simp [isoNet', gaugeStep]
     rw [e1, e2]
     exact isoFact_iso
+
+open Ptn.C17 Ptn.C17.RTree in
+/-- the premises of `canonical_form_centre_norm_whole` are satisfiable, in particular `TreeShaped`: `isoNet` has
+exactly the shape of the tree `0 → 1` (nodes `[0, 1]`, one bond, one edge, the edge joined by the bond `(1, 2)`);
+centre = the non-root node 1; the run of the model's operation list exists -/
+example :
+    let t : RTree := .node 0 [.node 1 []]
+    t.WF ∧ 1 ∈ ids t ∧ isoNet.WF ∧ TreeShaped isoNet t ∧ BondDims demoDim isoNet ∧
+    distanceToNode t 1 = some [(1, 0), (0, 1)] ∧
+    IsoRun demoDim id isoNet (canonOps [(1, 0), (0, 1)] (nbrsOf t)) isoNet' := by
+  refine ⟨by decide, by decide, isoNet_wf, ⟨List.Perm.refl _, by decide, ?_⟩, ?_, by decide, ?_⟩
+  · intro e he
+    have : e = (0, 1) := by simpa [edges, edgesL, rid] using he
+    subst this
+    exact ⟨(1, 2), 1, 2, by simp [isoNet], Or.inl rfl, by simp [isoNet], by simp [isoNet]⟩
+  · intro p hp
+    simp only [isoNet, List.mem_cons, List.not_mem_nil, or_false] at hp
+    subst hp; rfl
+  · have : canonOps [(1, 0), (0, 1)] (nbrsOf (.node 0 [.node 1 []])) = [⟨0, 1⟩] := by decide
+    rw [this]; exact isoNet_run
+
+/-! ### a centre move on a concrete canonical network
+
+`moveNet`: as `isoNet`, but the tensor of node 1 is `δ(σ2, σ3)` - an isometry toward its bond leg 2, so the
+network is canonical around node 0.  The move `0 → 1` uses the factorisation `isoFact` of the tensor of node 0. -/
+
+def moveNet : VNet Int where
+  ids := [0, 1]
+  legs := fun k => if k = 0 then [0, 1] else if k = 1 then [2, 3] else []
+  tens := fun k σ => if k = 0 then (if σ 0 = σ 1 ∧ σ 0 < 2 then 2 else 0) else (if σ 2 = σ 3 then 1 else 0)
+  bonds := [(1, 2)]
+  next := 4
+
+theorem moveNet_wf : moveNet.WF := by
+  refine ⟨by decide, ?_, ?_, ?_, by decide, ?_, ?_⟩
+  · intro n hn
+    simp only [moveNet, List.mem_cons, List.not_mem_nil, or_false] at hn
+    rcases hn with rfl | rfl <;> simp [moveNet]
+  · intro n hn m hm l h1 h2
+    simp only [moveNet, List.mem_cons, List.not_mem_nil, or_false] at hn hm
+    rcases hn with rfl | rfl <;> rcases hm with rfl | rfl <;> simp [moveNet] at h1 h2 <;> omega
+  · intro n hn
+    simp only [moveNet, List.mem_cons, List.not_mem_nil, or_false] at hn
+    rcases hn with rfl | rfl
+    · intro σ τ h
+      have h0 := h 0 (by simp [moveNet]); have h1 := h 1 (by simp [moveNet])
+      simp [moveNet, h0, h1]
+    · intro σ τ h
+      have h2 := h 2 (by simp [moveNet]); have h3 := h 3 (by simp [moveNet])
+      simp [moveNet, h2, h3]
+  · intro p hp
+    simp only [moveNet, List.mem_cons, List.not_mem_nil, or_false] at hp
+    subst hp
+    exact ⟨⟨0, by simp [moveNet], by simp [moveNet]⟩, ⟨1, by simp [moveNet], by simp [moveNet]⟩⟩
+  · intro n hn l hl
+    simp only [moveNet, List.mem_cons, List.not_mem_nil, or_false] at hn
+    rcases hn with rfl | rfl <;> simp [moveNet] at hl ⊢ <;> omega
+
+/-- node 1 of `moveNet` is an isometry toward its bond leg 2 -/
+theorem moveNet_iso : IsoToward demoDim id (moveNet.tens 1) (moveNet.legs 1) 2 := by
+  intro τ h1 h2
+  simp only [demoDim] at h1 h2
+  have e1 : τ (DL.ket 2) = 0 ∨ τ (DL.ket 2) = 1 := by omega
+  have e2 : τ (DL.bra 2) = 0 ∨ τ (DL.bra 2) = 1 := by omega
+  rcases e1 with e1 | e1 <;> rcases e2 with e2 | e2 <;>
+    simp [moveNet, ketT, braT, dbl, ddim, demoDim, sumPairs, sumR, upd, List.range_succ, e1, e2]
+
+/-- the factorisation of the tensor of node 0 (the one of `isoNet`: same tensor, legs and counter) -/
+def moveFact : QRFact demoDim (moveNet.tens 0) (moveNet.legs 0) 1 moveNet.next (moveNet.next + 1) := isoFact
+
+/-- the network after the move `0 → 1` -/
+def moveNet' : VNet Int := gaugeStep demoDim moveNet 0 1 (1, 2) 1 2 moveFact
+
+theorem moveNet_run : IsoRun demoDim id moveNet (moveOps [0, 1]) moveNet' :=
+  IsoRun.cons (IsoStep.mk moveNet 0 1 (1, 2) 1 2 (by simp [moveNet]) (by simp [moveNet]) (by decide)
+    ⟨by simp [moveNet], Or.inl rfl, by simp [moveNet], by simp [moveNet]⟩ moveFact isoFact_iso rfl) (IsoRun.nil _)
+
+open Ptn.C17 Ptn.C17.RTree in
+/-- the premises of `move_centre_isometric_tree` / `centre_norm_whole_of_canonical` / `move_centre_norm_whole`
+are satisfiable: the tree `0 → 1`, `moveNet` tree-shaped, well-formed, canonical around node 0 (node 1 is
+joined to its first hop 0 by the bond `(1, 2)` and is an isometry toward its end 2 of it); the way from 0 to 1
+is `[0, 1]` and a run of its moves with the full QR contract exists -/
+example :
+    let t : RTree := .node 0 [.node 1 []]
+    t.WF ∧ 0 ∈ ids t ∧ 1 ∈ ids t ∧ moveNet.WF ∧ TreeShaped moveNet t ∧ BondDims demoDim moveNet ∧
+    (∀ n ∈ ids t, n ≠ 0 → ∃ v, firstHop t n 0 = some v ∧ IsoAt demoDim id moveNet n v) ∧
+    pathFromTo t 0 1 = some [0, 1] ∧ IsoRun demoDim id moveNet (moveOps [0, 1]) moveNet' := by
+  refine ⟨by decide, by decide, by decide, moveNet_wf, ⟨List.Perm.refl _, by decide, ?_⟩, ?_, ?_, by decide,
+    moveNet_run⟩
+  · intro e he
+    have : e = (0, 1) := by simpa [edges, edgesL, rid] using he
+    subst this
+    exact ⟨(1, 2), 1, 2, by simp [moveNet], Or.inl rfl, by simp [moveNet], by simp [moveNet]⟩
+  · intro p hp
+    simp only [moveNet, List.mem_cons, List.not_mem_nil, or_false] at hp
+    subst hp; rfl
+  · intro n hn hn0
+    have hn' : n = 0 ∨ n = 1 := by simpa [ids, idsL, rid] using hn
+    rcases hn' with rfl | rfl
+    · exact absurd rfl hn0
+    · refine ⟨0, by decide, by simp [moveNet], by simp [moveNet], (1, 2), 2, 1, ⟨by simp [moveNet], Or.inr rfl,
+        by simp [moveNet], by simp [moveNet]⟩, moveNet_iso⟩
 
 end Ptn.C03
